@@ -52,6 +52,8 @@ type c04In struct {
 	Produces string `json:"produces"` // json | text
 	RespBody Bs     `json:"resp_body"`
 	RespHdr  Bs     `json:"resp_hdr"`
+	Wire     string `json:"wire,omitempty"`     // "" = request serialised and re-parsed in process; "tcp" = a real loopback HTTP server and the default transport
+	RespPad  int    `json:"resp_pad,omitempty"` // the response body is followed by this many padding bytes (large bodies are streamed by a real transport)
 }
 
 type c04Obs struct {
@@ -147,15 +149,30 @@ func (c04) Gen(r *rand.Rand, tier string, i int) any {
 	}
 	for j := r.Intn(4); j > 0; j-- {
 		v := c04Val(r, false)
-		if v != "" {
-			in.QM = append(in.QM, v)
+		if r.Intn(5) == 0 {
+			v = "" // an empty item among the repeated values
 		}
+		in.QM = append(in.QM, v)
 	}
 	for j := r.Intn(4); j > 0; j-- {
 		v := c04Val(r, false)
-		if v != "" {
-			in.FM = append(in.FM, v)
+		if r.Intn(5) == 0 {
+			v = ""
 		}
+		in.FM = append(in.FM, v)
+	}
+	if r.Intn(2) == 0 { // file names over an alphabet of quoting-relevant bytes
+		const alpha = "ab.\\\"();=,:@<>[]? /\xc3\xa9"
+		n := 1 + r.Intn(10)
+		b := make([]byte, n)
+		for j := range b {
+			b[j] = alpha[r.Intn(len(alpha))]
+		}
+		in.FileName = string(b) + ".t"
+	}
+	if r.Intn(4) == 0 {
+		in.Wire = "tcp"
+		in.RespPad = []int{0, 1500, 5000, 70000, 300000}[r.Intn(5)]
 	}
 	if in.Method != "GET" {
 		in.Body = []string{"none", "form", "multipart", "json"}[r.Intn(4)]
@@ -311,19 +328,25 @@ func (c04) Run(inAny any) any {
 				if k == "qn" && !in.HasQN {
 					continue // an absent integer arrives as its zero value
 				}
-				if s := c04Strs(v); len(s) > 0 && !(len(s) == 1 && s[0] == "") { // absent optional parameters arrive as zero values
+				if s := c04Strs(v); !c04AllEmpty(s) { // absent optional parameters arrive as zero values
 					obs.Recv[k] = s
 				}
 			}
 			return middleware.ResponderFunc(func(rw http.ResponseWriter, p runtime.Producer) {
 				rw.Header().Set("X-Resp", string(in.RespHdr))
 				rw.WriteHeader(201)
-				_ = p.Produce(rw, string(in.RespBody))
+				_ = p.Produce(rw, string(in.RespBody)+strings.Repeat("p", in.RespPad))
 			}), nil
 		}))
 		h := middleware.Serve(spec, api)
 		rt := client.New("example.test", in.BasePath, []string{"http"})
-		rt.Transport = c04Transport{h, &obs.Target}
+		if in.Wire == "tcp" {
+			srv := httptest.NewServer(h)
+			defer srv.Close()
+			rt = client.New(srv.Listener.Addr().String(), in.BasePath, []string{"http"})
+		} else {
+			rt.Transport = c04Transport{h, &obs.Target}
+		}
 		rt.Consumers["text/plain"] = runtime.TextConsumer()
 		rt.Producers["multipart/form-data"] = runtime.DiscardProducer
 		rt.Producers["application/x-www-form-urlencoded"] = runtime.DiscardProducer
@@ -370,6 +393,11 @@ func (c04) Run(inAny any) any {
 					if err := cons.Consume(resp.Body(), &s); err != nil {
 						return nil, err
 					}
+					if pad := strings.Repeat("p", in.RespPad); in.RespPad > 0 && strings.HasSuffix(s, pad) && len(s) == len(in.RespBody)+in.RespPad {
+						s = s[:len(s)-in.RespPad] // the padding arrived intact: compare the rest
+					} else if len(s) > 2000 {
+						s = s[:2000] + "...(truncated for the report)"
+					}
 					obs.SeenBody = Bs(s)
 				} else {
 					b, _ := io.ReadAll(resp.Body())
@@ -391,6 +419,15 @@ func (c04) Run(inAny any) any {
 }
 
 // supplied lists the values the caller set, by parameter, in the form the handler is expected to receive them
+func c04AllEmpty(xs []Bs) bool {
+	for _, x := range xs {
+		if x != "" {
+			return false
+		}
+	}
+	return true
+}
+
 func c04Supplied(in c04In) map[string][]Bs {
 	m := map[string][]Bs{"p1": {in.P1}}
 	if strings.Contains(in.Template, "{p2}") {
@@ -399,7 +436,7 @@ func c04Supplied(in c04In) map[string][]Bs {
 	if in.HasQ && in.Q1 != "" {
 		m["q1"] = []Bs{in.Q1}
 	}
-	if len(in.QM) > 0 {
+	if !c04AllEmpty(in.QM) { // a list of empty items only is indistinguishable from an absent parameter
 		m["qm"] = in.QM
 	}
 	if in.HasQN {
@@ -413,7 +450,7 @@ func c04Supplied(in c04In) map[string][]Bs {
 		if in.F1 != "" {
 			m["f1"] = []Bs{in.F1}
 		}
-		if len(in.FM) > 0 {
+		if !c04AllEmpty(in.FM) {
 			m["fm"] = in.FM
 		}
 	case "multipart":
@@ -470,7 +507,11 @@ func (c04) Category(inAny any, obsAny any) (string, bool) {
 	if in.Auth {
 		a = "auth"
 	}
-	return fmt.Sprintf("%s/%s/%s/%s", in.Method, in.Body, in.Produces, a), nt
+	w := "inproc"
+	if in.Wire == "tcp" {
+		w = fmt.Sprintf("tcp-pad%d", in.RespPad)
+	}
+	return fmt.Sprintf("%s/%s/%s/%s/%s", in.Method, in.Body, in.Produces, a, w), nt
 }
 
 var _ = multipart.ErrMessageTooLarge
